@@ -24,6 +24,8 @@ import (
 	"testing"
 	"time"
 
+	"github.com/rqlite/rqlite/v10/auth"
+	"github.com/rqlite/rqlite/v10/cluster/proto"
 	command "github.com/rqlite/rqlite/v10/command/proto"
 )
 
@@ -307,6 +309,78 @@ func TestVerifC20Client(t *testing.T) {
 		<-hwmC
 	}
 	rep.vfCompare("clientpool", ops, impl, nil)
+
+	// ---- the caller's credentials decide on the leader, for every request on a pooled connection:
+	// a leader with a credential store; through ONE client (so through the same pooled connection)
+	// first user u with the right password, then u with a wrong password, for every forwarded kind.
+	// The second must be refused ("unauthorized") and must not be executed.
+	{
+		cs := auth.NewCredentialsStore()
+		if err := cs.Load(strings.NewReader(`[{"username":"u","password":"right","perms":["all"]}]`)); err != nil {
+			t.Fatalf("credential store: %v", err)
+		}
+		tn2 := mustNewMockTransport()
+		s2 := New(tn2, db, mustNewMockManager(), cs)
+		s2.logger.SetOutput(io.Discard)
+		if err := s2.Open(); err != nil {
+			t.Fatalf("open: %v", err)
+		}
+		defer s2.Close()
+		good := &proto.Credentials{Username: "u", Password: "right"}
+		forward := func(cl *Client, kind string, tg int64, creds *proto.Credentials) error {
+			ctx := context.Background()
+			switch kind {
+			case "execute":
+				_, _, err := cl.Execute(ctx, &command.ExecuteRequest{Request: req(tg)}, s2.Addr(), creds, 5*time.Second, 0)
+				return err
+			case "query":
+				_, _, err := cl.Query(ctx, &command.QueryRequest{Request: req(tg)}, s2.Addr(), creds, 5*time.Second, 0)
+				return err
+			}
+			_, _, _, err := cl.Request(ctx, &command.ExecuteQueryRequest{Request: req(tg)}, s2.Addr(), creds, 5*time.Second, 0)
+			return err
+		}
+		for _, k1 := range []string{"execute", "query", "request"} {
+			for _, k2 := range []string{"execute", "query", "request"} {
+				for _, bad := range []*proto.Credentials{{Username: "u", Password: "wrong"}, {Username: "u", Password: ""}, nil} {
+					cl := NewClient(&c20Dialer{inner: tn2, n: &c20Net{}}, 5*time.Second)
+					exMu.Lock()
+					executed = nil
+					exMu.Unlock()
+					t1, t2, t3 := next(), next(), next()
+					e1 := forward(cl, k1, t1, good)
+					e2 := forward(cl, k2, t2, bad)
+					e3 := forward(cl, k2, t3, good)
+					exMu.Lock()
+					ex := append([]int64(nil), executed...)
+					exMu.Unlock()
+					ran := func(tg int64) bool {
+						for _, e := range ex {
+							if e == tg {
+								return true
+							}
+						}
+						return false
+					}
+					badDesc := "no credentials"
+					if bad != nil {
+						badDesc = fmt.Sprintf("u with password %q", bad.Password)
+					}
+					key := fmt.Sprintf("one client: %s as u/right, then %s as %s, then %s as u/right", k1, k2, badDesc, k2)
+					rep.Case(key, true)
+					rep.Count("credentials-on-pooled-connection")
+					if e1 != nil || !ran(t1) || e3 != nil || !ran(t3) {
+						rep.Fail("client-creds:"+k2+":authorised-request-refused", fmt.Sprintf("%s: the correctly authenticated requests gave %v / %v", key, e1, e3), map[string]interface{}{"sequence": key})
+					}
+					if e2 == nil || e2.Error() != "unauthorized" || ran(t2) {
+						rep.Fail("client-creds:"+k2+":executed-on-the-leader-with-wrong-credentials-after-a-good-request-on-the-connection",
+							fmt.Sprintf("%s: the second request returned error %v and was executed on the leader: %v", key, e2, ran(t2)),
+							map[string]interface{}{"sequence": key, "error": fmt.Sprint(e2), "executed": ran(t2)})
+					}
+				}
+			}
+		}
+	}
 
 	// ---- concurrency: several goroutines forward through ONE client (one shared pool); one of them
 	// times out (the leader answers it late) while the others keep sending, also after the late answer
